@@ -87,10 +87,12 @@ struct GitItem {
     literal: bool,
     /// `item->prefix`: length of the part contributed by the working directory
     prefix: usize,
+    /// carries `attr:` requirements
+    attr: bool,
 }
 
 fn git_item(spec: &str, cwd: &str) -> Option<GitItem> {
-    let (mut exclude, mut icase, mut literal, mut top) = (false, false, false, false);
+    let (mut exclude, mut icase, mut literal, mut top, mut attr) = (false, false, false, false, false);
     let rest = if let Some(r) = spec.strip_prefix(":(") {
         let (magic, rest) = r.split_once(')')?;
         for m in magic.split(',') {
@@ -99,6 +101,7 @@ fn git_item(spec: &str, cwd: &str) -> Option<GitItem> {
                 "icase" => icase = true,
                 "literal" => literal = true,
                 "top" => top = true,
+                m if m.starts_with("attr:") => attr = true,
                 _ => {}
             }
         }
@@ -131,7 +134,7 @@ fn git_item(spec: &str, cwd: &str) -> Option<GitItem> {
         path.push('/');
     }
     let prefix = if kept_base == base_comps { base.len().min(path.len()) } else { 0 };
-    Some(GitItem { path, exclude, icase, literal, prefix })
+    Some(GitItem { path, exclude, icase, literal, prefix, attr })
 }
 
 /// dir.c:common_prefix_len(): what `git ls-files` prunes the index with and then passes as `prefix` to match_pathspec().
@@ -184,6 +187,14 @@ fn git_exclude_prefix_bug(specs: &[String], cwd: &str) -> bool {
     max > 0 && items.iter().filter(|i| i.exclude).any(|i| !i.path.starts_with(&first_positive.path[..max]))
 }
 
+/// git 2.39 cuts the common prefix of the positive pathspecs off the path *before* looking up its attributes (dir.c:
+/// match_pathspec_item() hands the shortened name to match_pathspec_attrs()), so with a non-empty common prefix the attributes of a
+/// different path are consulted (`git -C a ls-files ':(attr:y)'` asks for the attributes of `b`, not `a/b`). Oracle unusable.
+fn git_attr_prefix_bug(specs: &[String], cwd: &str) -> bool {
+    let Some(items) = specs.iter().map(|s| git_item(s, cwd)).collect::<Option<Vec<_>>>() else { return false };
+    items.iter().any(|i| i.attr) && !items.iter().all(|i| i.exclude) && git_max_prefix(&items) > 0
+}
+
 fn eval(root: &Path, c: &SpecCase) -> Verdict {
     // ---- outside the domain ----
     let is_exclude = |s: &String| s.starts_with(":!") || (s.starts_with(":(") && s[..s.find(')').unwrap_or(0)].contains("exclude"));
@@ -194,6 +205,10 @@ fn eval(root: &Path, c: &SpecCase) -> Verdict {
     if git_exclude_prefix_bug(&c.specs, &c.cwd) {
         OUTSIDE_DOMAIN.fetch_add(1, Ordering::Relaxed);
         return ok_trivial("outside-domain:git-reads-past-exclude-item");
+    }
+    if git_attr_prefix_bug(&c.specs, &c.cwd) {
+        OUTSIDE_DOMAIN.fetch_add(1, Ordering::Relaxed);
+        return ok_trivial("outside-domain:git-looks-up-attributes-of-prefix-stripped-path");
     }
     // ---- git ----
     let mut args: Vec<&str> = vec!["ls-files", "-z", "--full-name", "--"];
@@ -319,6 +334,10 @@ pub fn run(run: &'static Run) {
     run.assume(
         "outside the domain: lists consisting only of exclude specs, run from a sub-directory. What they are implicitly relative to is a per-command policy in git \
          (PATHSPEC_PREFER_CWD for ls-files: the working directory; PATHSPEC_PREFER_FULL e.g. for diff/log: the whole tree); gix_pathspec::Search implements the latter",
+    );
+    run.assume(
+        "outside the domain (oracle unusable): lists with an `attr:` spec whose positive specs share a non-empty directory prefix (e.g. any such list run from a/ without a \
+         `:(top)`/`../` spec): git 2.39 looks up the attributes of the path with that prefix cut off (`git -C a ls-files ':(attr:y)'` misses a/b although `a/* y` applies)",
     );
     run.assume(
         "outside the domain (oracle unusable): lists whose positive specs share a directory prefix that an exclude spec does not start with, e.g. `git ls-files a/ ':!b'`: \
